@@ -342,7 +342,18 @@ func (index *PatternIndex) mod(ctx *Context, pairs []piPair, id string, op piOp)
 		// has the array as a value.
 		morePairs := make([]piPair, 0, len(vv))
 		// fmt.Printf("working array %v\n", vv)
-		sorted, err := SortValues(vv)
+		// Variables come first: a variable can bind any
+		// element of the event's array, including one that
+		// sorts before a constant of this pattern.
+		consts := make([]interface{}, 0, len(vv))
+		for _, x := range vv {
+			if s, is := x.(string); is && strings.HasPrefix(s, "?") {
+				morePairs = append(morePairs, piPair{k, s})
+			} else {
+				consts = append(consts, x)
+			}
+		}
+		sorted, err := SortValues(consts)
 		if err != nil {
 			return err
 		}
